@@ -695,7 +695,7 @@ def lemma_history():
 
 # =====================================================================================
 # C. MeanFieldTempoBackend.compute_step (real)
-def scen_mfb_step(ip, repo):
+def scen_mfb_step(ip, repo, nsys=1):
     s = Int('s')
     ip.assume(s >= 0)
     field = Cx(Real('a_re'), Real('a_im'))
@@ -725,10 +725,16 @@ def scen_mfb_step(ip, repo):
             raise PyRaise(ExcVal('UserError', ('hamiltonian',)))
         return uf('MP1', to_int(a2[0]), a2[1], a2[2]), uf('MP2', to_int(a2[0]), a2[1], a2[2])
     btb = Obj('BTB', {'net': Vc('net_s')})
-    self_ = mkobj(repo, 'backends.tempo_backend.MeanFieldTempoBackend', _step=s, _state_list=[rho], _field=field,
-                  _propagators_list=[propagators], _backend_list=[btb], _compute_field=cfield,
+    rhos, props, btbs = [rho], [propagators], [btb]
+    for i in range(1, nsys):
+        rhos.append(Vc('rho_s_%d' % i))
+        btbs.append(Obj('BTB', {'net': Vc('net_s_%d' % i)}))
+        props.append(propagators)
+    self_ = mkobj(repo, 'backends.tempo_backend.MeanFieldTempoBackend', _step=s, _state_list=rhos, _field=field,
+                  _propagators_list=props, _backend_list=btbs, _compute_field=cfield,
                   _compute_field_derivative=deriv)
-    return {'args': [self_], 'self': self_, 's': s, 'field': field, 'rho': rho, 'btb': btb, 'inputs': {'step': s}}
+    return {'args': [self_], 'self': self_, 's': s, 'field': field, 'rho': rho, 'rhos': list(rhos), 'btb': btb, 'btbs': btbs,
+            'nets0': [b.fields['net'] for b in btbs], 'inputs': {'step': s, 'systems': nsys}}
 
 
 def mfb_registry():
@@ -746,8 +752,9 @@ def mfb_registry():
 
 def post_mfb_step(ip, ctx, out):
     self_, s, field, rho, btb = ctx['self'], ctx['s'], ctx['field'], ctx['rho'], ctx['btb']
-    unchanged = z3.And(self_.fields['_step'] == s, btb.fields['net'] == Vc('net_s'),
-                       veq(self_.fields['_field'], field), veq(self_.fields['_state_list'], [rho]))
+    rhos = ctx['rhos']
+    unchanged = z3.And([self_.fields['_step'] == s, veq(self_.fields['_field'], field), veq(self_.fields['_state_list'], rhos)] +
+                       [b.fields['net'] == n0 for b, n0 in zip(ctx['btbs'], ctx['nets0'])])
     if out.raised('UserError'):
         second = any(e == ('user-raise', 'field_eom-2') for e in ip.log)
         if second:
@@ -762,11 +769,11 @@ def post_mfb_step(ip, ctx, out):
     p = [e for e in ip.log if e[0] == 'propagators'][0]
     cf = [e for e in ip.log if e[0] == 'compute_field'][0]
     ss = [e for e in ip.log if e[0] == 'system-step'][0]
-    dval = Cx(uf('D_re', s, [rho], field, sort=RealS), uf('D_im', s, [rho], field, sort=RealS))
-    ip.prove('mfb/uses-current-step', z3.And(to_int(d[1]) == s, veq(d[2], [rho]), veq(d[3], field),
+    dval = Cx(uf('D_re', s, rhos, field, sort=RealS), uf('D_im', s, rhos, field, sort=RealS))
+    ip.prove('mfb/uses-current-step', z3.And(to_int(d[1]) == s, veq(d[2], rhos), veq(d[3], field),
                                              to_int(p[1]) == s, veq(p[2], field), veq(p[3], dval),
                                              to_int(ss[1]) == s + 1,
-                                             to_int(cf[1]) == s, veq(cf[2], [rho]), veq(cf[3], field)))
+                                             to_int(cf[1]) == s, veq(cf[2], rhos), veq(cf[3], field)))
     ip.prove('mfb/step-post', z3.And(self_.fields['_step'] == s + 1, to_int(step) == s + 1))
 
 
@@ -800,8 +807,9 @@ def targets(tier='quick'):
     RPB.models['util.add_singleton'] = add_singleton
     T.append(Target('pt-backend/compute_step', 'backends.pt_tempo_backend.PtTempoBackend.compute_step', scen_ptb_step,
                     post_ptb_step, RPB, PROP, replay=rp('pt_exc_atomic')))
-    T.append(Target('mf-backend/compute_step', 'backends.tempo_backend.MeanFieldTempoBackend.compute_step',
-                    scen_mfb_step, post_mfb_step, mfb_registry(), PROP, replay=rp('mfb_exc_atomic')))
+    for nsys in (1, 2, 3):
+        T.append(Target('mf-backend/compute_step' + ('' if nsys == 1 else '[systems=%d]' % nsys), 'backends.tempo_backend.MeanFieldTempoBackend.compute_step',
+                        (lambda n: lambda ip, repo: scen_mfb_step(ip, repo, n))(nsys), post_mfb_step, mfb_registry(), PROP, replay=rp('mfb_exc_atomic')))
     RG = gibbs_registry()
     T.append(Target('gibbs/compute[fresh]', 'tempo.GibbsTempo.compute', scen_gibbs(True), post_gibbs, RG, PROP, replay=rp('gibbs_twice')))
     T.append(Target('gibbs/compute[again]', 'tempo.GibbsTempo.compute', scen_gibbs(False), post_gibbs, RG, PROP, replay=rp('gibbs_twice')))
